@@ -16,8 +16,13 @@ What is transcribed:
   * `u32::to_string` / `str::parse::<u32>` (Rust std: optional leading `+`, digits only, no
     sign alone, overflow is an error)                                                      → `showNat`, `parseU32`
 
-Panic sites are explicit outcomes: `todo!("Handling of unknown session")`, `parent_session_id
-.unwrap()`, `panic!("Executor not available")`.
+Panic sites are explicit outcomes.  Up to /repo commit 05997b8 the code had two: `todo!("Handling
+of unknown session")` in `FsmExecutor::send_to_session` and `parent_session_id.unwrap()` in
+`ScxmlEventIOProcessor::send` (defect P9, property C12).  Both were repaired ("fix:" commits
+9d6cb1f and bcf85d6: the send fails with `error.communication`); the model follows the code, so
+`routeSend` no longer produces `.panic` (theorem `C15_no_panic`); the constructor stays because the
+driver protocol and the harness still understand the answer `panic <site>`, which is how a
+reintroduced panic shows up as a disagreement.
 
 Strings are `List Nat` (UTF-8 bytes).  The payload type `δ` is abstract (it travels unchanged).
 A session's `Receiver` lives in its `GlobalData`, which the executor's session table keeps alive
@@ -123,9 +128,9 @@ def enqInt {δ : Type} (w : World δ) (sid : Nat) (ev : Event δ) : World δ :=
   modify w sid fun s => { s with intQ := s.intQ ++ [ev] }
 
 inductive PanicSite
-  /-- `todo!("Handling of unknown session")` in `FsmExecutor::send_to_session` -/
+  /-- was `todo!("Handling of unknown session")` in `FsmExecutor::send_to_session` (repaired) -/
   | unknownSession
-  /-- `global_lock.parent_session_id.unwrap()` in `ScxmlEventIOProcessor::send` -/
+  /-- was `global_lock.parent_session_id.unwrap()` in `ScxmlEventIOProcessor::send` (repaired) -/
   | noParent
   deriving DecidableEq, Repr
 
@@ -159,7 +164,7 @@ def stamp {δ : Type} (sid : Nat) (ev : Event δ) : Event δ :=
 /-- `ScxmlEventIOProcessor::send_to_session` on top of `FsmExecutor::send_to_session` -/
 def sendToSession {δ : Type} (w : World δ) (sender : Nat) (sid : Nat) (ev : Event δ) : Outcome δ :=
   match lookup w sid with
-  | none => .panic .unknownSession
+  | none => .done (enqInt w sender (errorCommunication ev)) false
   | some t =>
     if t.receiverDropped then .done (enqInt w sender (errorCommunication ev)) false
     else .done (enqExt w sid ev) true
@@ -171,7 +176,7 @@ def routeSend {δ : Type} (w : World δ) (S : Session δ) (target : Str) (ev0 : 
   else if target = tInternal then .done (enqInt w S.sid { ev with etype := .internal }) true
   else if target = tParent then
     match S.parent with
-    | none => .panic .noParent
+    | none => .done (enqInt w S.sid (errorCommunication ev)) false
     | some p => sendToSession w S.sid p ev
   else if pfxSession.isPrefixOf target then
     match parseU32 (target.drop pfxSession.length) with
